@@ -20,7 +20,7 @@ go build ./... 2>&1 | tail -3 || exit 2
 [ -n "$DEMO" ] && (gotest -vet=off -count=1 -run "'$(grep -ho 'func Test[A-Za-z0-9_]*' $DEMO | sed 's/func //' | paste -sd'|')'" ./$DEMODIR 2>&1 | tail -3 | sed 's/^/  demo-with-change: /')
 [ -n "$DEMO" ] && rm -f $WT/$DEMODIR/$(basename $DEMO)
 echo "  suite-with-change: $(gotest -vet=off -count=1 ./... 2>&1 | tr '\n' ' ')"
-cd /verif
+cd ${VERIF_HOME:-/verif}
 OUT=${EVAL_OUT:-$(mktemp -d /tmp/evalout-XXXXXX)}
 for c in $CHECKS; do
   VERIF_OUT_DIR=$OUT VERIF_REPO=$WT ./bin/verif check $c --tier quick 2>&1 | grep -v "^verif check" | sed "s/^/  [$c] /" | cut -c1-400
